@@ -23,16 +23,42 @@
 
 namespace internal {
 
+// Exact remainder of |x| / |y| for finite x and finite, non-zero y (x - n * y with n = trunc(x / y),
+// computed without rounding): y is doubled up to the largest y * 2^k <= |x| and then taken off
+// on the way back down. Every step is exact: r - t with t <= r < 2t (Sterbenz), t + t and t / 2
+// stay on the values y * 2^j.
+template <typename T>
+constexpr auto fmod_finite(T const ax, T const ay) noexcept -> T
+{
+    T r = ax;
+    T t = ay;
+    while (r - t >= t) { // <=> r >= 2t, also when the difference rounds
+        t += t;
+    }
+    while (true) {
+        if (r >= t) {
+            r -= t;
+        }
+        if (t == ay) {
+            return r;
+        }
+        t /= T(2);
+    }
+}
+
 template <typename T>
 constexpr auto fmod_check(T const x, T const y) noexcept -> T
 {
     return ( // NaN check
         any_nan(x, y) ? etl::numeric_limits<T>::quiet_NaN() :
-                      // +/- infinite
-            !all_finite(x, y) ? etl::numeric_limits<T>::quiet_NaN()
-                              :
-                              // else
-            x - trunc(x / y) * y
+                      // domain error: x infinite or y zero
+            (!is_finite(x) || y == T(0)) ? etl::numeric_limits<T>::quiet_NaN()
+                                         :
+                                         // y infinite, x zero (keeps its sign) or |x| < |y|: x
+            (!is_finite(y) || x == T(0) || abs(x) < abs(y)) ? x
+                                                            :
+                                                            // else: the exact remainder with the sign of x
+            (x < T(0) ? -fmod_finite(abs(x), abs(y)) : fmod_finite(abs(x), abs(y)))
     );
 }
 
@@ -49,7 +75,8 @@ constexpr auto fmod_type_check(const T1 x, const T2 y) noexcept -> TC
  * @param x a real-valued input.
  * @param y a real-valued input.
  * @return computes the floating-point remainder of \f$ x / y \f$ (rounded
- * towards zero) using \f[ \text{fmod}(x,y) = x - \text{trunc}(x/y) \times y \f]
+ * towards zero), \f[ \text{fmod}(x,y) = x - \text{trunc}(x/y) \times y \f]
+ * exactly (no intermediate rounding)
  */
 
 template <typename T1, typename T2>
